@@ -347,12 +347,22 @@ fn get_slice_reference_sequence<'c>(
             .reference_sequences()
             .get_index(context.reference_sequence_id())
             .map(|(name, _)| name)
-            .expect("invalid slice reference sequence ID");
+            .ok_or_else(|| {
+                io::Error::new(
+                    io::ErrorKind::InvalidData,
+                    "invalid slice reference sequence ID",
+                )
+            })?;
 
         let sequence = reference_sequence_repository
             .get(reference_sequence_name)
             .transpose()?
-            .expect("invalid slice reference sequence name");
+            .ok_or_else(|| {
+                io::Error::new(
+                    io::ErrorKind::InvalidInput,
+                    "missing slice reference sequence",
+                )
+            })?;
 
         // § 8.5 "Slice header block" (2024-09-04): "MD5sums should not be validated if the stored
         // checksum is all-zero."
@@ -368,7 +378,12 @@ fn get_slice_reference_sequence<'c>(
             .iter()
             .find(|(id, _)| *id == block_content_id)
             .map(|(_, src)| src)
-            .expect("invalid block content ID");
+            .ok_or_else(|| {
+                io::Error::new(
+                    io::ErrorKind::InvalidData,
+                    "invalid embedded reference bases block content ID",
+                )
+            })?;
 
         Ok(Some(ReferenceSequence::Embedded {
             reference_start: context.alignment_start(),
@@ -392,12 +407,22 @@ fn get_record_reference_sequence<'c>(
         .reference_sequence(header)
         .transpose()?
         .map(|(name, _)| name)
-        .expect("invalid reference sequence ID");
+        .ok_or_else(|| {
+            io::Error::new(
+                io::ErrorKind::InvalidData,
+                "invalid reference sequence ID",
+            )
+        })?;
 
     let sequence = reference_sequence_repository
         .get(reference_sequence_name)
         .transpose()?
-        .expect("invalid reference sequence name");
+        .ok_or_else(|| {
+            io::Error::new(
+                io::ErrorKind::InvalidInput,
+                "missing reference sequence",
+            )
+        })?;
 
     Ok(Some(ReferenceSequence::External { sequence }))
 }
